@@ -382,6 +382,29 @@ Definition send (token client_ip : string) (id : identity) (h : headers) : outco
   | Some h4 => if all_values_valid h4 then Forwarded (wire h4) else Answered 502
   end.
 
+(* ------------------------------------------------------------------ transport generations of an endpoint
+   pkg/clusters/endpoint.go: an EndpointInfo keeps its rest config (WrapTransport = the dynamic impersonating
+   round tripper, set by addOrUpdateEndpoint) and the proxy transport built from it; createTransport builds a new
+   transport from the STORED config and leaves that config alone; ResetTransport (called by GatewayHealthCheck
+   after repeated hanging probes) is createTransport again. *)
+Record endpoint := mkEp {
+  ep_wrap : bool;      (* the stored proxyConfig carries WrapTransport *)
+  ep_imp : bool;       (* the current ProxyTransport contains the impersonating round tripper *)
+}.
+Definition create_transport (e : endpoint) : endpoint := mkEp (ep_wrap e) (ep_wrap e).
+Definition reset_transport (e : endpoint) : endpoint := create_transport e.
+Definition new_endpoint : endpoint := create_transport (mkEp true false).
+Fixpoint after_resets (n : nat) (e : endpoint) : endpoint :=
+  match n with O => e | S k => after_resets k (reset_transport e) end.
+
+(* [send] through a given transport generation: without the impersonating round tripper no WrapRequest happens *)
+Definition send_with (impersonating : bool) (token client_ip : string) (id : identity) (h : headers) : outcome :=
+  let h3 := bearer_wrapper token (user_agent_wrapper (reverse_proxy_headers client_ip h)) in
+  match (if impersonating then wrap_request id h3 else Some h3) with
+  | None => Answered 502
+  | Some h4 => if all_values_valid h4 then Forwarded (wire h4) else Answered 502
+  end.
+
 (* the filters in front of the dispatcher.
    [h]: header set handed to the chain by the Go server; [id]: what the authenticator returned;
    [authz]: the authorizer's answer per impersonation item *)
@@ -433,6 +456,15 @@ Definition upgrade_send (client_ip : string) (id : identity) (h : headers) : out
 Definition pipeline (token client_ip : string) (h : headers) (id : identity) (authz : imp_item -> bool) : outcome :=
   match filters_core h id authz with
   | Pass h1 id1 => if is_upgrade_request h then upgrade_send client_ip id1 h1 else send token client_ip id1 h1
+  | Refuse code => Answered code
+  | Upgrade => NotModelled
+  end.
+
+(* the pipeline of a request forwarded through endpoint [e] (its current transport generation) *)
+Definition pipeline_ep (e : endpoint) (token client_ip : string) (h : headers) (id : identity) (authz : imp_item -> bool) : outcome :=
+  match filters_core h id authz with
+  | Pass h1 id1 => if is_upgrade_request h then upgrade_send client_ip id1 h1
+                   else send_with (ep_imp e) token client_ip id1 h1
   | Refuse code => Answered code
   | Upgrade => NotModelled
   end.
